@@ -91,6 +91,21 @@ fn main() {
         }
         return;
     }
+    if args.len() >= 3 && args[1] == "deep" {
+        // one long uncompressed chain 0 -> 1 -> .. -> n (what n equate_ calls build when the new element always wins), then a mutable lookup of the
+        // bottom element: must return n, compress the path, and must not exhaust the stack (the process runs on the default 8 MiB main-thread stack)
+        let n: u32 = args[2].parse().unwrap();
+        let mut u: Unification<E> = Unification::new();
+        u.increase_size_to(n as usize + 1);
+        for i in 0..n { u.union_roots_into(E(i), E(i + 1)); }
+        let mut fails: Vec<String> = vec![];
+        #[cfg(has_root_const)]
+        { if u.root_const(E(0)) != E(n) { fails.push(format!("root_const(0) on a chain of {} links is not the top element -- deep-chain", n)); } }
+        if u.root(E(0)) != E(n) { fails.push(format!("root(0) on a chain of {} links is not the top element -- deep-chain", n)); }
+        for i in (0..=n).step_by(((n / 1000).max(1)) as usize) { if rep_of(&u, i) != Ok(n) { fails.push(format!("after root(0), the representative of {} is not the top element -- deep-chain", i)); break; } }
+        match fails.first() { None => println!("{{\"deep\":\"pass\",\"links\":{}}}", n), Some(f) => { println!("{{\"deep\":\"fail\",\"what\":{:?}}}", f); std::process::exit(1); } }
+        return;
+    }
     let max_n: u32 = args.get(1).map(|s| s.parse().unwrap()).unwrap_or(4);
     let max_ops: usize = args.get(2).map(|s| s.parse().unwrap()).unwrap_or(5);
     // the sequences start with max_n grows (elements must exist), followed by every sequence of
